@@ -92,6 +92,7 @@ def worker(corpus_file, out_file):
 
 def classify(spec, problems, extents=None):
     k = kf.classify_plain(spec, problems) or mcommon.kf6(spec, problems)
+    k = k or mcommon.kf16(spec, problems)
     if k:
         return k
     if any(t in spec.tags for t in ("S1", "S2", "S3", "S4", "S5", "S6", "S8", "S9", "S10", "S11", "S12")):
